@@ -25,7 +25,7 @@ def load_prop(pid):
     return importlib.import_module('rv.props.%s' % pid.lower())
 
 
-def run_cases(ctx, mod, only=None):
+def run_cases(ctx, mod, only=None, final=True):
     from . import install
     install.CURRENT['ctx'] = ctx
     if hasattr(mod, 'setup'):
@@ -54,11 +54,22 @@ def run_cases(ctx, mod, only=None):
                                                     'tb': traceback.format_exc()[-1500:]})
             ctx.flag_inconclusive('harness error while running a case: %r' % (exc,))
         ctx.end_case()
+    from . import reach
+    reach.report(ctx, ())
+    ctx.extra['contracts_bound_in_namespaces'] = install.bindings()
+    if final and only is None:
+        final_guards(ctx, mod)
+
+
+def final_guards(ctx, mod):
+    """Inconclusive-guards evaluated once, on the whole run (after the shards are merged)."""
+    entered = ctx.extra.get('anchors_entered', {})
+    if isinstance(entered, dict):
+        for lab in getattr(mod, 'REQUIRED_ANCHORS', ()):
+            if entered.get(lab, 0) == 0:
+                ctx.flag_inconclusive('anchor %s was never entered' % lab)
     if hasattr(mod, 'finish'):
         mod.finish(ctx)
-    from . import reach
-    reach.report(ctx, getattr(mod, 'REQUIRED_ANCHORS', ()))
-    ctx.extra['contracts_bound_in_namespaces'] = install.bindings()
 
 
 def main(argv):
@@ -125,7 +136,7 @@ def main(argv):
 
     ctx.soft_budget = float(os.environ.get('VERIF_SOFT_BUDGET', SOFT_BUDGET[tier]))
     try:
-        run_cases(ctx, mod)
+        run_cases(ctx, mod, final=partial is None)
     except bootstrap.BootstrapError as exc:
         ctx.flag_inconclusive('bootstrap: %s' % exc)
     except Exception as exc:          # a harness bug is never a verdict on the code under test
@@ -164,6 +175,10 @@ def thorough_parent(ctx, pid, seed):
             continue
         ctx.absorb(json.load(open(out)))
     ctx.nshards = n
+    try:
+        final_guards(ctx, load_prop(pid))
+    except Exception as exc:
+        ctx.flag_inconclusive('final guards crashed: %r' % (exc,))
     import shutil
     shutil.rmtree(d, ignore_errors=True)
     return ctx.finish()
